@@ -17,6 +17,8 @@ pub mod similarity;
 pub mod stats;
 pub mod term;
 pub mod utils;
+#[cfg(hpo_verif)]
+pub mod verif_hooks;
 
 pub use ontology::builder;
 pub use ontology::comparison;
